@@ -2,6 +2,16 @@
 
 # property id -> (technique, level text, level note, design ref)
 CLAIMED = {
+    'C01': ('expression normal forms (complete per-qubit truth tables of acq/ipow/acq_mat in both packages vs. the '
+            '2x2 Pauli-matrix oracle) + product-site pairing/ordering rules + call binding',
+            'The arithmetic kernels are proved for all N: the per-qubit summand extracted from the AST agrees with the '
+            'matrix oracle on all 16 operand pairs and the reduction shape (all qubits, start 0, mod 2 / mod 4) is '
+            'checked. Product sites (Pauli.__matmul__, batch_dot, both packages) are checked structurally for '
+            'p1+p2+ipow(left,right) mod 4, XOR mod 2, coefficient product and consistent broadcast pairing. '
+            'Associativity and chain exactness are consequences and are not separately decided.',
+            'Trusted: CPython ast, the Pauli oracle, additivity of phases over tensor factors, the g*/p*/c* naming '
+            'scheme. Integer overflow ignored.',
+            'DESIGN.md 3 (R8, R7, R2, R13), 4 (C01)'),
     'C11': ('constant-table extraction by guard evaluation + literal folding, checked against first-principles '
             'Pauli algebra (symplectic validity, textbook action, distinctness, group closure)',
             'Complete static decision of the finite gate tables: all 31 literal tables (5 named, 24 indexed, 2 CNOT '
